@@ -33,6 +33,7 @@ static STEP_BUDGET: AtomicUsize = AtomicUsize::new(100_000);
 static CODEC_INTERRUPTED: AtomicU64 = AtomicU64::new(0);
 static CODEC_SHORT_WRITES: AtomicU64 = AtomicU64::new(0);
 static CODEC_SHORT_READS: AtomicU64 = AtomicU64::new(0);
+static COALESCED_READS: AtomicU64 = AtomicU64::new(0);
 
 fn log_event(mut v: serde_json::Value) {
     let n = EVENT_NO.fetch_add(1, Ordering::SeqCst) + 1;
@@ -231,6 +232,14 @@ impl shim::net::SimEndpoint for Endpoint {
                     return Ok(0);
                 }
             }
+            // TCP is a byte stream: whatever else the client has sent by now may be
+            // delivered by the same read (several requests in one segment)
+            if c % 2 == 0 {
+                while let Ok(chunk) = rd.rx.try_recv() {
+                    rd.buf.extend(chunk);
+                    COALESCED_READS.fetch_add(1, Ordering::Relaxed);
+                }
+            }
         }
         let avail = rd.buf.len().min(out.len());
         let mut n = avail;
@@ -332,6 +341,7 @@ fn client(
 ) {
     let n_ops = ops.len();
     let last_msg = ops.iter().rposition(|o| o["op"] == "msg");
+    let mut glued: Vec<u8> = vec![];
     for (oi, op) in ops.iter().enumerate() {
         for _ in 0..op["yields"].as_u64().unwrap_or(0) {
             sched_point();
@@ -356,6 +366,16 @@ fn client(
                 cuts.retain(|&x| x > 0 && x < bytes.len());
                 cuts.sort();
                 cuts.dedup();
+                if op["glue"].as_bool().unwrap_or(false) && !cut {
+                    // written back to back with the next request: one segment
+                    glued.extend(bytes);
+                    continue;
+                }
+                if !glued.is_empty() {
+                    let mut all = std::mem::take(&mut glued);
+                    all.extend(bytes);
+                    bytes = all;
+                }
                 let mut from = 0usize;
                 for cut_at in cuts.into_iter().chain(std::iter::once(bytes.len())) {
                     if tx.send(bytes[from..cut_at].to_vec()).is_err() {
@@ -371,11 +391,17 @@ fn client(
                 }
             }
             "sigint" => {
+                if !glued.is_empty() && tx.send(std::mem::take(&mut glued)).is_err() {
+                    return;
+                }
                 log_event(serde_json::json!({"k": "SIGINT", "conn": c}));
                 global_interrupted.store(true, Ordering::SeqCst);
             }
             "wait" => {
                 // a synchronous client: wait (bounded) for the `done` of an earlier request
+                if !glued.is_empty() && tx.send(std::mem::take(&mut glued)).is_err() {
+                    return;
+                }
                 let id = op["id"].as_str().unwrap_or("").to_owned();
                 let mut polls = op["polls"].as_u64().unwrap_or(200);
                 while polls > 0 && !done_ids.lock().unwrap().contains(&id) {
@@ -388,6 +414,9 @@ fn client(
             _ => {}
         }
         let _ = n_ops;
+    }
+    if !glued.is_empty() {
+        let _ = tx.send(std::mem::take(&mut glued));
     }
     log_event(serde_json::json!({"k": "CLIENT-CLOSED", "conn": c}));
     drop(tx);
@@ -457,6 +486,7 @@ fn run_one(sc: serde_json::Value) -> serde_json::Value {
     CODEC_INTERRUPTED.store(0, Ordering::SeqCst);
     CODEC_SHORT_WRITES.store(0, Ordering::SeqCst);
     CODEC_SHORT_READS.store(0, Ordering::SeqCst);
+    COALESCED_READS.store(0, Ordering::SeqCst);
     shim::TIMER_FIRE_PERMILLE.store(
         sc["timer_permille"].as_u64().unwrap_or(300) as usize,
         Ordering::SeqCst,
@@ -513,6 +543,7 @@ fn run_one(sc: serde_json::Value) -> serde_json::Value {
         "codec_interrupted": CODEC_INTERRUPTED.load(Ordering::SeqCst),
         "codec_short_writes": CODEC_SHORT_WRITES.load(Ordering::SeqCst),
         "codec_short_reads": CODEC_SHORT_READS.load(Ordering::SeqCst),
+        "coalesced_reads": COALESCED_READS.load(Ordering::SeqCst),
     })
 }
 
